@@ -68,9 +68,9 @@ func (a *App) rec(kind string, m *quickfix.Message) {
 	}
 	a.R.Add(e)
 }
-func (a *App) OnCreate(quickfix.SessionID)                       {}
-func (a *App) OnLogon(quickfix.SessionID)                        { atomic.AddInt64(&a.Logons, 1); a.rec("OnLogon", nil) }
-func (a *App) OnLogout(quickfix.SessionID)                       { a.rec("OnLogout", nil) }
+func (a *App) OnCreate(quickfix.SessionID) {}
+func (a *App) OnLogon(quickfix.SessionID)  { atomic.AddInt64(&a.Logons, 1); a.rec("OnLogon", nil) }
+func (a *App) OnLogout(quickfix.SessionID) { a.rec("OnLogout", nil) }
 func (a *App) ToAdmin(m *quickfix.Message, _ quickfix.SessionID) {
 	a.rec("ToAdmin", m)
 	if a.ToAdminFn != nil {
@@ -100,6 +100,8 @@ type StoreWrap struct {
 	Who string
 	// Delay, when set, is called before an operation is forwarded (delay injection at the store boundary).
 	Delay func(op string)
+	// Fail, when set and returning an error, makes save-and-increment fail without reaching the store (fault injection).
+	Fail func(op string, n int, msg []byte) error
 }
 
 func (w *StoreWrap) ev(op string, arg, before, after int, b []byte) {
@@ -128,7 +130,17 @@ func (w *StoreWrap) SaveMessageAndIncrNextSenderMsgSeqNum(n int, msg []byte) err
 		w.Delay("SaveIncr")
 	}
 	b := w.MessageStore.NextSenderMsgSeqNum()
+	if w.Fail != nil {
+		if err := w.Fail("SaveIncr", n, msg); err != nil {
+			w.ev("SaveIncrFailed", n, b, b, append([]byte{}, msg...))
+			return err
+		}
+	}
 	err := w.MessageStore.SaveMessageAndIncrNextSenderMsgSeqNum(n, msg)
+	if err != nil {
+		w.ev("SaveIncrFailed", n, b, w.MessageStore.NextSenderMsgSeqNum(), append([]byte{}, msg...))
+		return err
+	}
 	w.ev("SaveIncr", n, b, w.MessageStore.NextSenderMsgSeqNum(), append([]byte{}, msg...))
 	return err
 }
@@ -148,6 +160,7 @@ type wrapFactory struct {
 	r     *Recorder
 	who   string
 	delay func(op string)
+	fail  func(op string, n int, msg []byte) error
 	last  *StoreWrap
 	mu    sync.Mutex
 }
@@ -157,7 +170,7 @@ func (f *wrapFactory) Create(id quickfix.SessionID) (quickfix.MessageStore, erro
 	if err != nil {
 		return nil, err
 	}
-	w := &StoreWrap{MessageStore: s, R: f.r, Who: f.who, Delay: f.delay}
+	w := &StoreWrap{MessageStore: s, R: f.r, Who: f.who, Delay: f.delay, Fail: f.fail}
 	f.mu.Lock()
 	f.last = w
 	f.mu.Unlock()
@@ -187,6 +200,7 @@ type Options struct {
 	Extra     map[string]string
 	R         *Recorder
 	Delay     func(op string)
+	Fail      func(op string, n int, msg []byte) error
 	ToAdmin   func(m *quickfix.Message) // runs inside the engine's ToAdmin callback (user code: may take time)
 }
 
@@ -247,7 +261,7 @@ func start(o Options, initiator bool) (*Engine, error) {
 		}
 		inner = f
 	}
-	e.fact = &wrapFactory{inner: inner, r: o.R, who: o.Who, delay: o.Delay}
+	e.fact = &wrapFactory{inner: inner, r: o.R, who: o.Who, delay: o.Delay, fail: o.Fail}
 	if initiator {
 		e.Ini, err = quickfix.NewInitiator(e.App, e.fact, st, quickfix.NewNullLogFactory())
 		if err != nil {
